@@ -25,8 +25,20 @@ public:
     static status assign_thread_info(Token& token) {
         for (auto&& elem : thread_info_table_) {
             if (elem.gain_the_right()) {
-                YAKUSHIMA_VERIF_YIELD(Y_LOAD | Y_CAT_EPOCH, nullptr);
-                elem.set_begin_epoch(epoch_management::get_epoch());
+                /**
+                 * The epoch thread ignores this slot until a begin epoch is published and may
+                 * advance the epoch any number of times meanwhile. A stale begin epoch would
+                 * later be used as the tag of objects retired by this session, which could then
+                 * be released while a younger session still reads them. So publish, and repeat
+                 * until the epoch did not change across the publication.
+                 */
+                for (;;) {
+                    YAKUSHIMA_VERIF_YIELD(Y_LOAD | Y_CAT_EPOCH, nullptr);
+                    Epoch epoch = epoch_management::get_epoch();
+                    elem.set_begin_epoch(epoch);
+                    std::atomic_thread_fence(std::memory_order_seq_cst);
+                    if (epoch == epoch_management::get_epoch()) { break; }
+                }
                 token = &(elem);
                 YAKUSHIMA_VERIF_EVENT(EV_ENTER_OK, &elem, 0, 0);
                 return status::OK;
